@@ -43,6 +43,8 @@ SELECTIONS = [
     ("k: ev { x l { x } }", {"Obj.x": "async"}),
     ("tick", {"Subscription.tick": "async"}),
     ("ev { x }", {}),
+    ("ev { x } ev { y }", {"Obj.x": "async"}),
+    ("... on Subscription { ev { x } } ev { id }", {"Obj.x": "sync"}),
 ]
 
 
@@ -183,7 +185,7 @@ def _reference(case, overrides):
     key = "q:" + case["sel"]
     doc = _DOCS.get(key)
     if doc is None:
-        doc = _DOCS[key] = parse("query { %s }" % case["sel"])
+        doc = _DOCS[key] = parse("query { %s }" % case["sel"].replace("on Subscription", "on Query"))
     out = []
     for k in range(case["n"]):
         world = H.World(overrides)
@@ -203,7 +205,7 @@ def _paths(case):
 
     schema = _schema({c: "sync" for c in case["custom"]}, "sync")
     world = H.World({})
-    process_graphql_query(schema, parse("query { %s }" % case["sel"]), root=_event(0), context=world, executor_cls=BlockingExecutor, validators=[])
+    process_graphql_query(schema, parse("query { %s }" % case["sel"].replace("on Subscription", "on Query")), root=_event(0), context=world, executor_cls=BlockingExecutor, validators=[])
     out = []
     for e in world.log:
         if e[0] == "invoke" and e[1] not in out:
